@@ -22,6 +22,7 @@ import z3
 
 from ..core import Eq, Fail, Note
 from .. import pat, ops, bv
+from .. import coexist
 from ..kapi import get_alg, make_alg, mv, coeffs, mv_eq_claims, eq_claims, kmap, mv_mv_claims, twice_on_wrapper
 
 PROP = 'C05'
@@ -96,10 +97,14 @@ def cases(tier, seed):
         if d <= 4 and not cfg.get('wrapper'):
             for _ in range(2 if tier == 'quick' else 6):
                 out.append(dict(kind='registered', cfg=cfg, ka=list(rng.choice(pats)[:6]), kb=list(rng.choice(pats)[:6])))
+    # algebras coexisting in one process (shared blade names, different numbering / metric / options)
+    out += coexist.cases(tier, seed, 305, n_quick=20)
     return out
 
 
 def run_case(desc, V):
+    if desc['kind'] == 'coexist':
+        return coexist.run(desc, V, binary=('rp',), unary=('hodge', 'unhodge', 'polarity', 'unpolarity'))
     kind = desc['kind']
     if kind == 'config':
         return _run_config(desc, V)
